@@ -34,11 +34,19 @@ def all_atoms(tbl):
             yield el[iso] if isinstance(iso, int) else iso
 
 
+def has_data(a):
+    """the atom's neutron record has a scattering length and a number density – decided from the
+    served fields, not by asking `Neutron.has_sld()` (which is code under test: natural Sm has a
+    tabulated b_c of exactly 0.00 fm and does have data)"""
+    n = a.neutron
+    return getattr(n, "b_c", None) is not None and getattr(n, "_number_density", None) is not None
+
+
 def data_keys(tbl):
     """(Z, A) of the atoms whose neutron record has an SLD"""
     out = []
     for a in all_atoms(tbl):
-        if a.neutron.has_sld():
+        if has_data(a):
             out.append(pyside.key_of(a)[:2])
     return out
 
@@ -52,7 +60,7 @@ def table_lines(tbl, me):
         if a.mass is not None:
             lines.append("mass %d %d %s" % (z, A, f2h(a.mass)))
         n = a.neutron
-        if n.has_sld():
+        if has_data(a):
             total = float("nan") if n.total is None else n.total
             lines.append("rec %d %d %s %s %s %s" % (z, A, f2h(n.b_c), f2h(n.absorption), f2h(total),
                                                    f2h(n._number_density)))
@@ -88,7 +96,7 @@ class Pools:
         # atoms without neutron data (elements without density, isotopes not in the table)
         self.nodata = []
         for a in all_atoms(tbl):
-            if not a.neutron.has_sld() and a.mass is not None and a.number > 0:
+            if not has_data(a) and a.mass is not None and a.number > 0:
                 self.nodata.append(pyside.key_of(a)[:2])
         # atoms whose σ_c = 4π|b_c|²/100 exceeds the tabulated σ_s: σ_i clips at 0
         self.clip = []
